@@ -44,6 +44,8 @@ type batchResult struct {
 	live   [][]byte // what Build returned: the caller's from then on
 	coding string
 	err    bool
+	// scribbled: the harness (as the owner) overwrote the live parts on purpose
+	scribbled bool
 }
 
 func (b batchResult) String() string {
@@ -151,6 +153,23 @@ func runBatch(r *core.Run) {
 	if text == "" {
 		text = "a"
 	}
+	if !isSMPP && c.Prob(1, 40) {
+		// a text that is wider in GB18030 (four octets per character) than in UCS-2 (two), long enough that the GBK
+		// candidate needs more than 255 parts while UCS-2 still fits: the fallback must not be skipped
+		wide := []rune("\u0e01\u0e02\u0627\u05d0\u0915\u1200")
+		n := 8416 + c.Intn(8000)
+		rs := make([]rune, n)
+		for i := range rs {
+			rs[i] = wide[(i*7+n)%len(wide)]
+		}
+		text = string(rs)
+		cands = []int{15}
+		if c.Bool() {
+			cands = append(cands, 0)
+		}
+		origin = -1
+		r.Probe("wider_in_gb18030_than_ucs2")
+	}
 	ref := byte(c.Intn(256))
 	K := 2 + c.Intn(7)
 	r.Event("batch smpp=%v cands=%v origin=%d text=%d octets K=%d", isSMPP, cands, origin, len(text), K)
@@ -209,6 +228,11 @@ func runBatch(r *core.Run) {
 	defer installPermute(r)()
 	results := make([]batchResult, K)
 	panicked := false
+	reuseBuilder := c.Prob(1, 3)
+	shared := protocol.NewBatchDataCodingEncoder()
+	if reuseBuilder {
+		r.Probe("builder_reused")
+	}
 	s.Go("caller", func() {
 		for k := 0; k < K; k++ {
 			var dcs []datacoding.ProtocolDataCoding
@@ -224,10 +248,53 @@ func runBatch(r *core.Run) {
 			for _, n := range order {
 				dcs = append(dcs, mk(n))
 			}
-			b := protocol.NewBatchDataCodingEncoder().Protocol(map[bool]protocol.Protocol{true: protocol.SMPP, false: protocol.CMPP}[isSMPP]).Content(text, ref).DataCodings(dcs)
-			if origin >= 0 {
-				b = b.OriginDataCoding(mk(origin))
+			pr := map[bool]protocol.Protocol{true: protocol.SMPP, false: protocol.CMPP}[isSMPP]
+			b := protocol.NewBatchDataCodingEncoder()
+			if reuseBuilder {
+				// one builder value serves all K requests; in between it may have built the same text under another
+				// reference, another text under the same one, or nothing at all (then no setter is called again)
+				b = shared
+				switch c.Pick(3, 2, 2, 2) {
+				case 1:
+					r.Call("BatchDataCodingEncoder.Build", func() { _, _, _ = b.Content(text, ref+1).Build(ctx) })
+				case 2:
+					r.Call("BatchDataCodingEncoder.Build", func() { _, _, _ = b.Content("x"+text, ref).Build(ctx) })
+				case 3:
+					if k > 0 && !results[k-1].err {
+						// the caller overwrites what the previous Build gave it (it owns those octets) and builds again
+						for _, p := range results[k-1].live {
+							for i := range p {
+								p[i] = 0xC3
+							}
+						}
+						results[k-1].scribbled = true
+						r.Probe("builder_rebuilt_without_setters")
+						goto build
+					}
+				}
 			}
+			{
+				// the setters in a tape-chosen order: a request is the set of its settings
+				setters := []func(){
+					func() { b.Protocol(pr) },
+					func() { b.Content(text, ref) },
+					func() { b.DataCodings(dcs) },
+				}
+				if origin >= 0 {
+					setters = append(setters, func() { b.OriginDataCoding(mk(origin)) })
+				}
+				for i := 0; i < len(setters)-1; i++ {
+					j := i + c.Intn(len(setters)-i)
+					if j != i {
+						setters[i], setters[j] = setters[j], setters[i]
+						r.Probe("setter_order_permuted")
+					}
+				}
+				for _, f := range setters {
+					f()
+				}
+			}
+		build:
 			var parts [][]byte
 			var coding datacoding.ProtocolDataCoding
 			var err error
@@ -266,7 +333,7 @@ func runBatch(r *core.Run) {
 			_ = cmpp.Utf8ToUcs2Pooled("锤子 hammer")
 		}
 	})
-	if msg := s.Run(20000, nil); msg != "" {
+	if msg := s.Run(4000000, nil); msg != "" {
 		r.Fail("C09", "liveness", "BatchDataCodingEncoder.Build", "stuck", "%s", msg)
 		return
 	}
@@ -282,6 +349,9 @@ func runBatch(r *core.Run) {
 	for k := 0; k < K; k++ {
 		if results[k].err {
 			continue
+		}
+		if results[k].scribbled {
+			continue // the harness overwrote it itself
 		}
 		same := len(results[k].live) == len(results[k].parts)
 		for i := 0; same && i < len(results[k].parts); i++ {
